@@ -217,6 +217,14 @@ class Rat:
     def subst(self, a, rat):
         return self.n.subst(a, rat) / self.d.subst(a, rat)
 
+    def rename_atoms(self, old, new):
+        """every atom whose text contains `old` is replaced by the atom with `new` in its place (aliases of a renamed object)"""
+        out = self
+        for a in sorted(self.atoms()):
+            if old in a:
+                out = out.subst(a, Rat.atom(a.replace(old, new)))
+        return out
+
     def __repr__(self):
         if self.d == ONE:
             return repr(self.n)
